@@ -137,7 +137,8 @@ def raire_files(rep):
     rankings = {k: [list(p) for r in range(0, len(v) + 1) for p in itertools.permutations(v, r)] for k, v in cands.items()}
     nmax = 4 if thorough(rep) else 3
     for contests in (["A"], ["A", "B"]):
-        lines_opts = [(cid, bid, rk) for cid in contests for bid in ("b1", "b2") for rk in rankings[cid]]
+        # ballot identifiers deliberately coincide with candidate identifiers ("1", "2") as numeric ids do in real exports
+        lines_opts = [(cid, bid, rk) for cid in contests for bid in ("1", "2") for rk in rankings[cid]]
         for n in range(0, nmax + 1):
             combos = itertools.product(lines_opts, repeat=n)
             if len(lines_opts) ** n > 4000:
@@ -857,10 +858,24 @@ def case_irv_tree(rep):
                 if a_nb or a_ir:
                     rep.fail("expansion stops at a contradicted node", inp, got=path[:d + 1])
                     break
-            tup = V.treeListToTuple([n])
+            try:
+                tup = V.treeListToTuple([n])
+            except Exception as ex:
+                rep.fail("treeListToTuple does not raise", inp, got=type(ex).__name__ + ": " + str(ex)[:80])
+                continue
             marker = "Unpruned leaf" in tup[1]
-            if marker != (not (n.NEBTagList or n.IRVTagList)):
+            if marker != (not (n.NEBTagList or n.IRVTagList)) or tup[0] != n.cand:
                 rep.fail("the 'Unpruned leaf' marker is rendered exactly for untagged leaves", inp, got=tup)
+            if n.NEBTagList and ("NEB " + ",".join(str(x[0]) for x in n.NEBTagList)) not in tup[1]:
+                rep.fail("the rendered tag lists the numbers of the NEB assertions that prune the node", inp, got=tup)
+            if n.IRVTagList and ("IRV " + ",".join(str(x[0]) for x in n.IRVTagList)) not in tup[1]:
+                rep.fail("the rendered tag lists the numbers of the IRV assertions that prune the node", inp, got=tup)
+        try:
+            whole = V.treeListToTuple(tree)
+            if whole[0] != root:
+                rep.fail("the rendered tree is rooted at the alternative winner", inp, got=whole[0])
+        except Exception as ex:
+            rep.fail("treeListToTuple does not raise on the whole tree", inp, got=type(ex).__name__ + ": " + str(ex)[:80])
 
     for nc in range(2, maxc + 1):
         cands = [str(i) for i in range(1, nc + 1)]
